@@ -4,6 +4,7 @@ Import ListNotations.
 From CXV Require Import Gen.TokTy Gen.ParserTables Gen.Blocks Gen.Facts Base.Regex Base.RegexThms Gen.LexRules
   Lex.PlyLoop Lex.LexThms Parse.Balanced Parse.BalancedThms Parse.BlocksSM Parse.BlocksSpec Parse.BlocksThms.
 From CXV Require Import Parse.Specs.
+From CXV Require Parse.Declarator Parse.DispatchLang Gen.Dispatch Parse.DispatchExternThms Parse.DispatchFriendThms.
 Open Scope N_scope.
 
 (* the lexer never gets stuck: every code-point string yields tokens or a located error *)
@@ -103,6 +104,19 @@ Print Assumptions stray_close_rejected.
 Print Assumptions access_outside_class_rejected.
 Print Assumptions error_is_final.
 Print Assumptions wrapper_total.
+
+(* class-only constructs outside a class, and what a class may not contain -- on the handlers as translated from the
+   code that exists now (Gen/Dispatch.v): `friend` outside a class body is a parse error whatever follows it; a linkage
+   specification (`extern "C" ...`) or an `extern template` inside a class body is a parse error *)
+Theorem friend_outside_a_class_rejected : forall kw R,
+  DispatchLang.run Dispatch.prog_parse_friend_decl false kw R = DispatchLang.OErr 1.
+Proof. exact DispatchFriendThms.friend_outside_class_rejected. Qed.
+Theorem linkage_specification_in_a_class_rejected : forall kw x R,
+  Declarator.kty x = T_STRING_LITERAL \/ Declarator.kty x = T_template ->
+  DispatchLang.run Dispatch.prog_parse_extern true kw (x :: R) = DispatchLang.OErr 1.
+Proof. exact DispatchExternThms.extern_block_in_class_rejected. Qed.
+Print Assumptions friend_outside_a_class_rejected.
+Print Assumptions linkage_specification_in_a_class_rejected.
 
 (* non-vacuity: '$', '@' and '`' meet the premises of illegal_char_rejected *)
 Example c06_nonvacuous :
